@@ -605,6 +605,23 @@ def load_with_stubs(units, stub_units, repo=None, tolerate=True):
     prog.units.update(sprog.units)
     prog.failed.update(sprog.failed)
     prog.hdr = sprog.hdr
+    # the inline accessors of the stub headers themselves
+    d = _facts_dir(repo)
+    sp = os.path.join(d, 'stub_headers.c')
+    root = os.path.join(VERIF, 'stubs')
+    incs = []
+    for dp, dn, fns in sorted(os.walk(root)):
+        for f in sorted(fns):
+            if f.endswith('.h'):
+                incs.append('#include <%s>' % os.path.relpath(os.path.join(dp, f), root))
+    with open(sp, 'w') as f:
+        f.write('\n'.join(incs) + '\n')
+    res, failed = extract([('stubhdr', sp)], repo=repo, stubs=True, tolerate=False)
+    su = Unit(res['stubhdr'], 'stub-headers')
+    for k, fn in su.funcs.items():
+        fn.unit = prog.hdr
+        prog.hdr.funcs.setdefault(k, fn)
+    prog.stub_funcs = sorted(su.funcs)
     return prog
 
 
